@@ -17,6 +17,7 @@ struct Ctx {
     corpus32: Vec<(u64, i32)>,
     corpus64s: Vec<(u64, i32)>,
     corpus32s: Vec<(u64, i32)>,
+    corpus_limb: Vec<(Vec<u8>, i32)>,
     binades64: HashSet<u32>,
     binades32: HashSet<u32>,
     log_boundary: u64,
@@ -382,6 +383,11 @@ fn next_case(ctx: &mut Ctx, rng: &mut Rng, fmt: Fmt) -> Case {
                     gen::g1x(rng, fmt)
                 } else if r < 92 && fmt.mant_bits == 52 {
                     match gen::g_limb_boundary(rng) {
+                        Some(c) => c,
+                        None => continue,
+                    }
+                } else if r < 94 && fmt.mant_bits == 52 {
+                    match gen::limb_struct_case(rng, &ctx.corpus_limb) {
                         Some(c) => c,
                         None => continue,
                     }
@@ -766,6 +772,7 @@ fn mode_oracle(ctx: &mut Ctx, args: &Args, rng: &mut Rng, shard: (u64, u64)) {
         ctx.rep.require("probe.double_rounding_discriminating");
     }
     if ctx.prop == "C01" {
+        ctx.rep.require("tag.LIMB_STRUCTURED");
         // the slow path's two big integers on different sides of a power of 2^64 (constructed: gen::g_limb_boundary)
         ctx.rep.require("tag.LIMB_BOUNDARY");
         ctx.rep.require("path.slow_neg_limb_boundary_between_digits_and_halfway");
@@ -1584,6 +1591,7 @@ fn main() {
         corpus32: args.get("corpus32").map(gen::read_corpus).unwrap_or_default(),
         corpus64s: args.get("corpus64s").map(gen::read_corpus).unwrap_or_default(),
         corpus32s: args.get("corpus32s").map(gen::read_corpus).unwrap_or_default(),
+        corpus_limb: args.get("corpus-limb").map(gen::read_digit_corpus).unwrap_or_default(),
         binades64: HashSet::new(),
         binades32: HashSet::new(),
         log_boundary: 0,
